@@ -472,15 +472,16 @@ class BluePrint:
                     "arguments."
                 )
 
+            argind = arg
             if isinstance(arg, str):
                 for ii, param in enumerate(sig.parameters):
                     if arg == param:
-                        arg = ii
+                        argind = ii
                         break
 
             # Mutating the immutable...
             larg = list(self._argslist[position])
-            larg[arg] = value
+            larg[argind] = value
             self._argslist[position] = tuple(larg)
 
     def changeDuration(self, name, dur, replaceeverywhere=False):
